@@ -23,8 +23,11 @@ def sh(cmd, **kw):
     return subprocess.run(cmd, capture_output=True, text=True, **kw)
 
 
+SUB = os.environ.get("SEED_DIR", "seeded")  # "benign": behaviour-preserving refactorings (every exit 1 there is a false alarm)
+
+
 def one(sid, props):
-    sd = os.path.join(ROOT, "seeded", sid)
+    sd = os.path.join(ROOT, SUB, sid)
     pfile = os.path.join(sd, "patch.rebased.diff")
     if not os.path.exists(pfile):
         pfile = os.path.join(sd, "patch.diff")
@@ -65,7 +68,7 @@ def one(sid, props):
 
 
 def main():
-    ids = sys.argv[1:] or sorted(os.listdir(os.path.join(ROOT, "seeded")))
+    ids = sys.argv[1:] or sorted(d for d in os.listdir(os.path.join(ROOT, SUB)) if os.path.isdir(os.path.join(ROOT, SUB, d)))
     cfg = json.load(open(os.path.join(ROOT, "checks.json")))
     props = sorted(p for p, v in cfg["properties"].items() if v.get("claimed", True))
     with cf.ThreadPoolExecutor(max_workers=3) as ex:
@@ -73,7 +76,7 @@ def main():
             # keep the per-check detail small: only the checks that reacted
             slim = dict(rec)
             slim["checks"] = {p: v for p, v in rec.get("checks", {}).items() if v["exit"] != 0 or v["undecided"]}
-            with open(os.path.join(ROOT, "seeded", rec["seed"], "detect.json"), "w") as f:
+            with open(os.path.join(ROOT, SUB, rec["seed"], "detect.json"), "w") as f:
                 json.dump(slim, f, indent=1)
             print("%-6s target=%s detected_by=%s%s" % (rec["seed"], rec["target"], ",".join(rec.get("detected_by", [])) or "-", "  ERROR " + rec["error"] if rec.get("error") else ""), flush=True)
 
